@@ -244,7 +244,7 @@ class NFARegexBuilder:
 
         new_final_states = set()
 
-        if lower_bound <= 1:
+        if lower_bound <= 1 and number_of_repetitions >= 1:
             new_final_states.update(self._final_states)
 
         # Loop around if lower bound is 0
